@@ -913,10 +913,9 @@ fn deletion_set(o: &InvObs) -> (BTreeSet<PathBuf>, Vec<PathBuf>, BTreeSet<PathBu
                             }
                             // the path itself is a link: the link goes (if it points at something),
                             // what it points to stays
+                            // (dangling or not: it is the declared output path)
                             Some(Entry::Symlink(_)) => {
-                                if std::fs::metadata(root.join(&rel)).is_ok() || o.after_tree.get(&rel).is_none() {
-                                    del.insert(rel);
-                                }
+                                del.insert(rel);
                             }
                             _ => {}
                         }
@@ -1224,6 +1223,12 @@ impl Property for C12 {
                     // generator's stream)
                     let h = simrt::stamp::fnv(simrt::stamp::FNV_INIT, format!("{}/{}", p.dir, link).as_bytes());
                     let is_dir_link = link_files.last().map(|f| matches!(&f.kind, FileKind::Symlink(t) if !t.ends_with(".txt"))).unwrap_or(false);
+                    if is_dir_link && h % 5 == 3 {
+                        // the link dangles: what it pointed to is gone; the link is still the
+                        // declared output path
+                        let n = link_files.len();
+                        link_files.remove(n - 2);
+                    }
                     let declared = match (is_dir_link, h % 5) {
                         (true, 0) => format!("{}/", link),
                         (true, 1) => format!("{}/.", link),
